@@ -38,6 +38,14 @@
 #define AQSEL_dns_fd verif_stub_answer_from_qmem(dns_fd
 #define answer_from_qmem(a, b, c, d, e, f) AQSEL_##a, b, c, d, e, f)
 #endif
+#ifdef STUB_CHECKS
+/* userid case "any value but 0" of the stream commands: the three session checks are replaced by
+ * their contract for that case (proved on the real functions in group srv_check_user_u1:
+ * a userid outside the table makes each of them return 1) */
+#define CASEL_int verif_real_check_authenticated_user_and_ip(int
+#define CASEL_userid verif_stub_check_foreign(userid
+#define check_authenticated_user_and_ip(a, b) CASEL_##a, b)
+#endif
 #ifdef STUB_GETQ
 #define GQSEL_int verif_real_get_from_outpacketq(int
 #define GQSEL_userid verif_stub_get_from_outpacketq(userid
@@ -60,6 +68,14 @@
 
 #ifdef STUB_GETQ
 static int verif_stub_get_from_outpacketq(int userid);
+#endif
+#ifdef STUB_CHECKS
+struct query;
+static int verif_stub_check_foreign(int userid, struct query *q)
+{
+	__CPROVER_assert(userid != 0, "stub contract applies to the case userid != 0 only");
+	return 1;
+}
 #endif
 /* identity on the userid taken from the request; the harness case-splits on its value here */
 #ifndef H_UID_CASE
@@ -98,8 +114,8 @@ static int g_paylen;
 static unsigned short g_ans_id[4];
 static char g_ans_enc[4];
 static int g_tun_writes, g_raw_sends, g_sendto;
-static int g_login_seed, g_login_calls;
-static unsigned char g_login_out[16];
+static int g_login_seed, g_login_calls, g_login_seed2;
+static unsigned char g_login_out[16], g_login_out2[16];
 size_t g_m;
 
 int nondet_int(void);
@@ -237,6 +253,10 @@ size_t verif_strlen(const char *s) { size_t n = nondet_size_t(); __CPROVER_assum
 #undef strcmp
 #undef strlen
 #undef time
+#ifdef STUB_CHECKS
+#undef check_authenticated_user_and_ip
+#define check_authenticated_user_and_ip verif_real_check_authenticated_user_and_ip
+#endif
 #ifdef STUB_HELPERS
 #undef send_chunk_or_dataless
 #undef handle_full_packet
@@ -296,10 +316,16 @@ void login_calculate(char *buf, int buflen, const char *pass, int seed)
 	int i;
 	__CPROVER_assert(buflen >= 16 && __CPROVER_w_ok(buf, 16), "login_calculate: 16-byte output");
 	__CPROVER_assert(pass == password, "login_calculate is given the server password");
-	g_login_seed = seed;
+	if (g_login_calls == 0) {
+		g_login_seed = seed;
+		for (i = 0; i < 16; i++)
+			buf[i] = g_login_out[i];
+	} else {
+		g_login_seed2 = seed;
+		for (i = 0; i < 16; i++)
+			buf[i] = g_login_out2[i];
+	}
 	g_login_calls++;
-	for (i = 0; i < 16; i++)
-		buf[i] = g_login_out[i];
 }
 static int g_fau_ret, g_fau_taken;
 int find_available_user(void)
@@ -318,7 +344,15 @@ void user_switch_codec(int userid, const struct encoder *enc) { if (userid < 0 |
 void user_set_conn_type(int userid, enum connection c) { if (userid < 0 || userid >= 1) return; if (c < CONN_RAW_UDP || c >= CONN_MAX) return; users[userid].conn = c; }
 int write_tun(int fd, char *data, size_t len) { g_tun_writes++; return (int)len; }
 char *format_addr(struct sockaddr_storage *a, int l) { static char b[8]; return b; }
-ssize_t verif_sendto(int fd, const void *buf, size_t len, int flags, const struct sockaddr *to, socklen_t tolen) { g_sendto++; return (ssize_t)len; }
+static unsigned char g_sent[24]; static size_t g_sent_len; static const void *g_sent_to;
+ssize_t verif_sendto(int fd, const void *buf, size_t len, int flags, const struct sockaddr *to, socklen_t tolen)
+{
+	size_t k;
+	__CPROVER_assert(len == 0 || __CPROVER_r_ok(buf, len), "sendto: buffer readable for len bytes");
+	g_sendto++; g_sent_len = len; g_sent_to = to;
+	for (k = 0; k < 24; k++) g_sent[k] = k < len ? ((const unsigned char *)buf)[k] : 0;
+	return (ssize_t)len;
+}
 
 /* write_dns recorder (the real write_dns has its own proof) */
 static void verif_stub_write_dns(int fd, struct query *q, const char *data, int datalen, char downenc)
@@ -503,6 +537,7 @@ void h_check_user(void)
 	__CPROVER_assert((r2 == 0) == (LIVE0(uid) && slot.authenticated), "check_authenticated_user_and_ip additionally requires the login");
 	__CPROVER_assert((r3 == 0) == (LIVE0(uid) && slot.authenticated && (check_ip || !slot.options_locked)), "..._and_options additionally requires unlocked options when source checking is off");
 	__CPROVER_assert(PRIV_UNCHANGED(s0) && slot.last_pkt == s0.last_pkt, "the checks change nothing");
+	__CPROVER_assert(uid == 0 || (r1 == 1 && r2 == 1 && r3 == 1), "a userid outside the session table makes every check return 1");
 	VERIF_REACH();
 }
 
@@ -828,6 +863,71 @@ void h_cmd_stream(void)
 	__CPROVER_assert(g_full_calls <= 1 && (g_tun_writes == 0 || g_full_calls == 1), "at most one packet is delivered, and only through handle_full_packet");
 	__CPROVER_assert(g_sendto == 0, "no raw send");
 	__CPROVER_assert(slot.authenticated == s0.authenticated && slot.authenticated_raw == s0.authenticated_raw && slot.seed == s0.seed && slot.conn == s0.conn && slot.encoder == s0.encoder && slot.downenc == s0.downenc && slot.fragsize == s0.fragsize && slot.lazy == s0.lazy && slot.options_locked == s0.options_locked && slot.hostlen == s0.hostlen, "stream commands never change login state or session options");
+	__CPROVER_assert(SESSION_WF(slot), "the session invariant is preserved");
+	VERIF_REACH();
+}
+#endif
+
+
+/* ---- raw UDP mode (C03 clause 3, C19 call sites, C12/C05 for raw frames) --------------------------------
+ * raw_decode on a datagram object of EXACTLY len bytes; handle_raw_login/data/ping are the real bodies. */
+#ifdef H_RAW
+VERIF_RAW_HEADER_DEF       /* the definition of raw_header, copied from common.c by a must-match pattern on every run */
+#ifndef STUB_HELPERS
+#error "raw groups stub handle_full_packet"
+#endif
+void h_raw_decode(void)
+{
+	any_server_state();
+	int len = nondet_int(), i;
+	/* read_dns hands over at most its receive buffer, which is declared with the size of a packet payload
+	 * (both 64*1024 in the source; must-fire static fact in the extraction rules) */
+	__CPROVER_assume(len >= 0 && len <= (int)sizeof(slot.inpacket.data));
+	char *packet = malloc(len);                         /* EXACTLY the datagram */
+	int uid = case_uid();
+#if H_UID_CASE == 1
+	__CPROVER_assume(uid >= 1 && uid <= 15);
+#endif
+	unsigned char cmd = nondet_uchar();
+	__CPROVER_assume((cmd & 0x0F) == 0);
+	if (len >= 4) packet[3] = (char)(cmd | uid);
+	for (i = 0; i < 16; i++) { g_login_out[i] = nondet_uchar(); g_login_out2[i] = nondet_uchar(); }
+	unsigned char sub[16];
+	for (i = 0; i < 16; i++) sub[i] = (len >= 20) ? (unsigned char)packet[4 + i] : 0;
+	struct snap s0 = take_snap();
+	struct sockaddr_storage host0 = slot.host;
+	_Bool hdr = len >= 4 && (unsigned char)packet[0] == 0x10 && (unsigned char)packet[1] == 0xd1 && (unsigned char)packet[2] == 0x9e;
+	/* raw login: the session must exist, be alive and have passed the DNS login - but may come from ANY address */
+	_Bool rawlogin_ok = uid == 0 && slot.active && !slot.disabled && slot.authenticated && !(slot.last_pkt + 60 < g_now);
+	/* raw data/ping: live, own source, DNS login and raw login */
+	_Bool rawauth = LIVE0(uid) && slot.authenticated && slot.authenticated_raw;
+	int r = raw_decode(packet, len, &g_q, 8, (struct dnsfd *)0, 7);
+	_Bool hash_ok = 1;
+	for (i = 0; i < 16; i++) hash_ok = hash_ok && sub[i] == g_login_out[i];
+	__CPROVER_assert(r == hdr, "raw_decode claims exactly the datagrams that start with the raw header");
+	__CPROVER_assert(hdr || (PRIV_UNCHANGED(s0) && slot.last_pkt == s0.last_pkt && g_sendto == 0 && g_tun_writes == 0 && g_full_calls == 0), "anything else is left to the DNS decoder untouched");
+	__CPROVER_assert(g_answers == 0 || g_full_calls == 1, "raw frames are never answered with DNS messages (a delivered packet forwarded to a DNS-mode session may release that session's held query)");
+	if (hdr && cmd == RAW_HDR_CMD_LOGIN) {
+		_Bool accepted = rawlogin_ok && len >= 20 && hash_ok;
+		__CPROVER_assert(!accepted || (g_login_calls == 2 && g_login_seed == (int)((unsigned)s0.seed + 1u) && g_login_seed2 == (int)((unsigned)s0.seed - 1u)), "raw login is verified against challenge+1 and answered with challenge-1");
+		__CPROVER_assert(accepted ? slot.authenticated_raw == 1 : slot.authenticated_raw == s0.authenticated_raw, "the raw login flag is set exactly on a correct response from an authenticated live session");
+		__CPROVER_assert(accepted || (PRIV_UNCHANGED(s0) && slot.last_pkt == s0.last_pkt && g_sendto == 0), "a wrong, short, stale or unauthenticated raw login changes nothing and gets no reply");
+		__CPROVER_assert(!accepted || (slot.conn == CONN_RAW_UDP && slot.hostlen == g_q.fromlen && g_sendto == 1 && g_sent_len == 20 && g_sent[3] == (RAW_HDR_CMD_LOGIN | 0) && g_sent_to == (const void *)&g_q.from), "an accepted raw login rebinds the session to the sender, switches it to raw mode and sends the 16-byte reply there");
+		__CPROVER_assert(slot.authenticated == s0.authenticated && slot.seed == s0.seed && slot.fragsize == s0.fragsize && slot.encoder == s0.encoder && slot.downenc == s0.downenc && slot.lazy == s0.lazy, "raw login touches no other setting");
+		__CPROVER_assert(g_tun_writes == 0 && g_full_calls == 0, "no delivery on login");
+	}
+	if (hdr && cmd == RAW_HDR_CMD_DATA) {
+		__CPROVER_assert(rawauth || (PRIV_UNCHANGED(s0) && slot.last_pkt == s0.last_pkt && g_full_calls == 0 && g_tun_writes == 0 && g_sendto == 0), "raw data from a session that is not live, from a foreign source, or without DNS and raw login is dropped");
+		__CPROVER_assert(!rawauth || (g_full_calls == 1 && s0.in_len >= 0), "authorised raw data is handed to handle_full_packet once");
+		__CPROVER_assert(slot.authenticated == s0.authenticated && slot.authenticated_raw == s0.authenticated_raw && slot.seed == s0.seed && slot.conn == s0.conn && slot.hostlen == s0.hostlen, "raw data never changes login state");
+	}
+	if (hdr && cmd == RAW_HDR_CMD_PING) {
+		__CPROVER_assert(rawauth || (PRIV_UNCHANGED(s0) && slot.last_pkt == s0.last_pkt && g_sendto == 0), "raw ping without authorisation changes nothing and gets no reply");
+		__CPROVER_assert(!rawauth || (g_sendto == 1 && g_sent_len == 4 && g_sent[3] == (RAW_HDR_CMD_PING | 0)), "authorised raw ping gets one 4-byte reply");
+		__CPROVER_assert(g_tun_writes == 0 && g_full_calls == 0 && slot.authenticated == s0.authenticated && slot.authenticated_raw == s0.authenticated_raw && slot.seed == s0.seed && slot.conn == s0.conn, "ping delivers nothing and changes no login state");
+	}
+	if (hdr && cmd != RAW_HDR_CMD_LOGIN && cmd != RAW_HDR_CMD_DATA && cmd != RAW_HDR_CMD_PING)
+		__CPROVER_assert(PRIV_UNCHANGED(s0) && slot.last_pkt == s0.last_pkt && g_sendto == 0 && g_full_calls == 0, "unknown raw commands are ignored");
 	__CPROVER_assert(SESSION_WF(slot), "the session invariant is preserved");
 	VERIF_REACH();
 }
